@@ -53,7 +53,8 @@ def ref_render(lib, f):
         elif isinstance(b, Preamble):
             s = "@preamble{" + b.value + "}\n"
         elif isinstance(b, ExplicitComment):
-            s = "@comment{" + b.comment + "}\n"
+            # the closing bracket must stay structural: a blank separates it from a trailing backslash
+            s = "@comment{" + b.comment + (" " if b.comment.endswith("\\") else "") + "}\n"
         elif isinstance(b, ImplicitComment):
             s = b.comment + "\n"
         elif isinstance(b, ParsingFailedBlock):
